@@ -16,3 +16,5 @@ PROPERTY = PropertySpec(
     technique='contract-based deductive verification of ownership/freshness (pyvc provenance tracking + z3); bounded mutation matrix',
     design_ref='DESIGN.md section 10 / C11',
 )
+
+PROPERTY.explanation += ' Further ownership obligations: VectorContainer.eval neither alters nor hands out the package-level helper table; Trace.__init__ owns its list of names; TracerMixin.__init__ gives every period its own Trace; copy() carries every entry of the instance dictionary, registered or not.'
